@@ -573,7 +573,7 @@ func TestC11(t *testing.T) {
 		racePool = &sb.Pool{Binary: raceBin, ExtraEnv: []string{"GORACE=halt_on_error=0 log_path=/dev/null"}, RSSLimit: 6 << 30}
 		defer racePool.Close()
 	}
-	total := 200 / cfg.NShards
+	total := 1200 / cfg.NShards
 	if cfg.Thorough() {
 		total = 12000 / cfg.NShards
 	}
